@@ -91,7 +91,10 @@ func verifFullScenarioX(nExt int, subs []string, behaviours []int, raceTimers bo
 	if !raceTimers {
 		w.SetSlowInit(true)
 	}
-	if raceTimers {
+	if raceTimers && verifRaceFromStart {
+		// the function-timeout timer may also fire while the (lazy) initialisation is running
+		verifRaceTimers(true)
+	} else if raceTimers {
 		// let the initialisation finish first (expiry during init is the subject of
 		// VerifFullExpiryDuringInit); from now on the function-timeout timer may fire at any
 		// point of an invocation
@@ -237,6 +240,15 @@ func VerifFullRespExitThenStall() {
 }
 
 // C05 "response versus expiry": the timeout timer may fire at any point of a healthy invocation.
+var verifRaceFromStart bool
+
+// expiry at any point including the initialisation phase (the timed-out invocation must not be
+// dispatched behind the reset)
+func VerifFullRaceInit2() {
+	verifRaceFromStart = true
+	verifFullScenarioX(0, nil, []int{rapid.VbRespond, rapid.VbRespond}, true)
+}
+
 func VerifFullRace2() { verifFullScenarioX(0, nil, []int{rapid.VbRespond, rapid.VbRespond}, true) }
 func VerifFullRace2Ext() {
 	verifFullScenarioX(1, []string{"I"}, []int{rapid.VbRespond, rapid.VbRespond}, true)
